@@ -955,6 +955,8 @@ func crashSignature(stderr string) (string, string) {
 	return fn, msg
 }
 
+var shards = 6
+
 func run(casesPath, outPath string, seed int64, nmut int) int {
 	raw, err := os.ReadFile(casesPath)
 	if err != nil {
@@ -1077,14 +1079,12 @@ func run(casesPath, outPath string, seed int64, nmut int) int {
 	probe := Req{Label: "probe", Method: "POST", Path: "/loki/api/v1/push", Headers: map[string]string{"Content-Type": "application/json"},
 		BodyB64: base64.StdEncoding.EncodeToString(probeBody), Probe: true}
 
-	ch, err := startChild()
-	if err != nil {
-		fmt.Fprintln(os.Stderr, err)
-		return 2
-	}
+	var mu sync.Mutex
 	var findings []Finding
 	sigCount := map[string]int{}
 	add := func(f Finding) {
+		mu.Lock()
+		defer mu.Unlock()
 		sigCount[f.Signature]++
 		if sigCount[f.Signature] <= 2 {
 			findings = append(findings, f)
@@ -1093,132 +1093,27 @@ func run(casesPath, outPath string, seed int64, nmut int) int {
 	codes := map[string]int{}
 	restarts := 0
 	infra := []string{}
-	// sanity: the probe must work on a fresh child
-	if rs, ok := ch.send(probe); !ok || rs.Code != 204 {
-		fmt.Fprintf(os.Stderr, "probe fails on a fresh child: %+v %s\n", rs, ch.stderr.String())
-		return 2
-	}
 	for i := range reqs {
-		rq := reqs[i]
-		rq.ID = i + 1
-		rs, ok := ch.send(rq)
-		routeName := strings.SplitN(rq.Label, "|", 2)[0]
-		if !ok {
-			// the child died (or stopped answering): crash
-			ch.kill()
-			fn, msg := crashSignature(ch.stderr.String())
-			tail := ch.stderr.String()
-			if len(tail) > 3000 {
-				tail = tail[:3000]
-			}
-			small := rq
-			if len(small.BodyB64) > 4000 {
-				small.BodyB64 = small.BodyB64[:4000] + "...(truncated)"
-			}
-			add(Finding{Signature: "crash|" + routeName + "|" + fn, Msg: fmt.Sprintf("request %q terminates the process: %s (in %s)", rq.Label, msg, fn), Label: rq.Label, Req: small, Detail: tail})
-			restarts++
-			if ch, err = startChild(); err != nil {
-				infra = append(infra, err.Error())
-				break
-			}
-			if rs, ok := ch.send(probe); !ok || rs.Code != 204 {
-				infra = append(infra, "probe fails after restart")
-				break
-			}
-			continue
-		}
-		codes[fmt.Sprintf("%s:%d", routeName, rs.Code)]++
-		small := rq
-		if len(small.BodyB64) > 4000 {
-			small.BodyB64 = small.BodyB64[:4000] + "...(truncated)"
-		}
-		if rs.Timeout && rq.TimeoutS == 0 {
-			// a loaded machine can make an innocent request slow: a hang must reproduce on a fresh child with five times the limit
-			ch.kill()
-			restarts++
-			if ch, err = startChild(); err != nil {
-				infra = append(infra, err.Error())
-				break
-			}
-			ch.send(probe)
-			again := rq
-			again.TimeoutS = 25
-			if rs2, ok2 := ch.send(again); ok2 {
-				if !rs2.Timeout {
-					codes["slow-not-hung:"+routeName]++
-				}
-				rs = rs2
-			}
-		}
-		if rs.Timeout {
-			kind := "blocked"
-			where := strings.Join(rs.Blocked, ",")
-			if len(rs.Spinning) > 0 {
-				kind = "spinning"
-				where = strings.Join(rs.Spinning, ",")
-			}
-			first := where
-			if j := strings.Index(first, ","); j > 0 {
-				first = first[:j]
-			}
-			loc := "unknown"
-			if fl := strings.Fields(first); len(fl) > 0 {
-				loc = fl[0]
-			}
-			add(Finding{Signature: "hang|" + routeName + "|" + kind + "|" + loc, Msg: fmt.Sprintf("request %q is not answered within 5 s; goroutine(s) %s in %s", rq.Label, kind, where), Label: rq.Label, Req: small})
-			ch.kill()
-			restarts++
-			if ch, err = startChild(); err != nil {
-				infra = append(infra, err.Error())
-				break
-			}
-			ch.send(probe)
-			continue
-		}
-		if rs.Code == 599 {
-			add(Finding{Signature: "handler-panic|" + routeName, Msg: fmt.Sprintf("request %q panics in the handler goroutine (connection dropped without an HTTP response)", rq.Label), Label: rq.Label, Req: small})
-		}
-		// follow-up: a valid push must still succeed, with a rectangular block, and no request goroutine may linger
-		if i%5 == 4 || rs.Code >= 500 || rs.Code == 599 {
-			ps, ok := ch.send(probe)
-			if !ok {
-				ch.kill()
-				fn, msg := crashSignature(ch.stderr.String())
-				add(Finding{Signature: "crash-after|" + routeName + "|" + fn, Msg: fmt.Sprintf("after request %q a valid push terminates the process: %s", rq.Label, msg), Label: rq.Label, Req: small, Detail: ch.stderr.String()})
-				restarts++
-				if ch, err = startChild(); err != nil {
-					infra = append(infra, err.Error())
-					break
-				}
-				ch.send(probe)
-				continue
-			}
-			if ps.Code != 204 {
-				add(Finding{Signature: "poisoned|" + routeName, Msg: fmt.Sprintf("after request %q a valid push is answered %d", rq.Label, ps.Code), Label: rq.Label, Req: small})
-			}
-			if ps.Ragged {
-				add(Finding{Signature: "ragged-batch|" + routeName, Msg: fmt.Sprintf("after request %q an INSERT block with unequal column lengths was sent (shared batch corrupted)", rq.Label), Label: rq.Label, Req: small})
-				ch.kill()
-				restarts++
-				ch, _ = startChild()
-				ch.send(probe)
-			}
-			if len(ps.Blocked) > 0 {
-				sort.Strings(ps.Blocked)
-				add(Finding{Signature: "leak|" + strings.Fields(ps.Blocked[0])[0], Msg: fmt.Sprintf("after request %q goroutine(s) started for it are still alive: %v", rq.Label, ps.Blocked), Label: rq.Label, Req: small})
-				ch.kill()
-				restarts++
-				ch, _ = startChild()
-				ch.send(probe)
-			}
-		}
+		reqs[i].ID = i + 1
 	}
-	if ch != nil {
-		if os.Getenv("C05_DEBUG") != "" {
-			os.Stderr.WriteString(ch.stderr.String())
-		}
-		ch.kill()
+	// the requests are independent of each other: shards run in parallel, each against its own child process
+	nshards := shards
+	if nshards < 1 {
+		nshards = 1
 	}
+	var wg sync.WaitGroup
+	for sh := 0; sh < nshards; sh++ {
+		var mine []Req
+		for i := sh; i < len(reqs); i += nshards {
+			mine = append(mine, reqs[i])
+		}
+		wg.Add(1)
+		go func(mine []Req) {
+			defer wg.Done()
+			runShard(mine, probe, add, &mu, codes, &restarts, &infra)
+		}(mine)
+	}
+	wg.Wait()
 	res := map[string]any{"requests": len(reqs), "skipped_cases": skipped, "cases": len(cases), "byte_mutations": nmut * len(routes()), "status_codes": codes,
 		"child_restarts": restarts, "findings": findings, "signature_counts": sigCount, "infra": infra}
 	b, _ := json.MarshalIndent(res, "", " ")
@@ -1247,6 +1142,170 @@ func schema() {
 	fmt.Println(string(b))
 }
 
+// runShard sends its requests, one after the other, to a child process of its own
+func runShard(reqs []Req, probe Req, add func(Finding), mu *sync.Mutex, codes map[string]int, restarts *int, infra *[]string) {
+	ch, err := startChild()
+	if err != nil {
+		mu.Lock()
+		*infra = append(*infra, err.Error())
+		mu.Unlock()
+		return
+	}
+	// sanity: the probe must work on a fresh child
+	if rs, ok := ch.send(probe); !ok || rs.Code != 204 {
+		mu.Lock()
+		*infra = append(*infra, fmt.Sprintf("probe fails on a fresh child: %+v %s", rs, ch.stderr.String()))
+		mu.Unlock()
+		return
+	}
+	for i := range reqs {
+		rq := reqs[i]
+		rs, ok := ch.send(rq)
+		routeName := strings.SplitN(rq.Label, "|", 2)[0]
+		if !ok {
+			// the child died (or stopped answering): crash
+			ch.kill()
+			fn, msg := crashSignature(ch.stderr.String())
+			tail := ch.stderr.String()
+			if len(tail) > 3000 {
+				tail = tail[:3000]
+			}
+			small := rq
+			if len(small.BodyB64) > 4000 {
+				small.BodyB64 = small.BodyB64[:4000] + "...(truncated)"
+			}
+			add(Finding{Signature: "crash|" + routeName + "|" + fn, Msg: fmt.Sprintf("request %q terminates the process: %s (in %s)", rq.Label, msg, fn), Label: rq.Label, Req: small, Detail: tail})
+			mu.Lock()
+			*restarts++
+			mu.Unlock()
+			if ch, err = startChild(); err != nil {
+				mu.Lock()
+				*infra = append(*infra, err.Error())
+				mu.Unlock()
+				break
+			}
+			if rs, ok := ch.send(probe); !ok || rs.Code != 204 {
+				mu.Lock()
+				*infra = append(*infra, "probe fails after restart")
+				mu.Unlock()
+				break
+			}
+			continue
+		}
+		mu.Lock()
+		codes[fmt.Sprintf("%s:%d", routeName, rs.Code)]++
+		mu.Unlock()
+		small := rq
+		if len(small.BodyB64) > 4000 {
+			small.BodyB64 = small.BodyB64[:4000] + "...(truncated)"
+		}
+		if rs.Timeout && rq.TimeoutS == 0 {
+			// a loaded machine can make an innocent request slow: a hang must reproduce on a fresh child with five times the limit
+			ch.kill()
+			mu.Lock()
+			*restarts++
+			mu.Unlock()
+			if ch, err = startChild(); err != nil {
+				mu.Lock()
+				*infra = append(*infra, err.Error())
+				mu.Unlock()
+				break
+			}
+			ch.send(probe)
+			again := rq
+			again.TimeoutS = 25
+			if rs2, ok2 := ch.send(again); ok2 {
+				if !rs2.Timeout {
+					mu.Lock()
+					codes["slow-not-hung:"+routeName]++
+					mu.Unlock()
+				}
+				rs = rs2
+			}
+		}
+		if rs.Timeout {
+			kind := "blocked"
+			where := strings.Join(rs.Blocked, ",")
+			if len(rs.Spinning) > 0 {
+				kind = "spinning"
+				where = strings.Join(rs.Spinning, ",")
+			}
+			first := where
+			if j := strings.Index(first, ","); j > 0 {
+				first = first[:j]
+			}
+			loc := "unknown"
+			if fl := strings.Fields(first); len(fl) > 0 {
+				loc = fl[0]
+			}
+			add(Finding{Signature: "hang|" + routeName + "|" + kind + "|" + loc, Msg: fmt.Sprintf("request %q is not answered within 5 s; goroutine(s) %s in %s", rq.Label, kind, where), Label: rq.Label, Req: small})
+			ch.kill()
+			mu.Lock()
+			*restarts++
+			mu.Unlock()
+			if ch, err = startChild(); err != nil {
+				mu.Lock()
+				*infra = append(*infra, err.Error())
+				mu.Unlock()
+				break
+			}
+			ch.send(probe)
+			continue
+		}
+		if rs.Code == 599 {
+			add(Finding{Signature: "handler-panic|" + routeName, Msg: fmt.Sprintf("request %q panics in the handler goroutine (connection dropped without an HTTP response)", rq.Label), Label: rq.Label, Req: small})
+		}
+		// follow-up: a valid push must still succeed, with a rectangular block, and no request goroutine may linger
+		if i%5 == 4 || rs.Code >= 500 || rs.Code == 599 {
+			ps, ok := ch.send(probe)
+			if !ok {
+				ch.kill()
+				fn, msg := crashSignature(ch.stderr.String())
+				add(Finding{Signature: "crash-after|" + routeName + "|" + fn, Msg: fmt.Sprintf("after request %q a valid push terminates the process: %s", rq.Label, msg), Label: rq.Label, Req: small, Detail: ch.stderr.String()})
+				mu.Lock()
+				*restarts++
+				mu.Unlock()
+				if ch, err = startChild(); err != nil {
+					mu.Lock()
+					*infra = append(*infra, err.Error())
+					mu.Unlock()
+					break
+				}
+				ch.send(probe)
+				continue
+			}
+			if ps.Code != 204 {
+				add(Finding{Signature: "poisoned|" + routeName, Msg: fmt.Sprintf("after request %q a valid push is answered %d", rq.Label, ps.Code), Label: rq.Label, Req: small})
+			}
+			if ps.Ragged {
+				add(Finding{Signature: "ragged-batch|" + routeName, Msg: fmt.Sprintf("after request %q an INSERT block with unequal column lengths was sent (shared batch corrupted)", rq.Label), Label: rq.Label, Req: small})
+				ch.kill()
+				mu.Lock()
+				*restarts++
+				mu.Unlock()
+				ch, _ = startChild()
+				ch.send(probe)
+			}
+			if len(ps.Blocked) > 0 {
+				sort.Strings(ps.Blocked)
+				add(Finding{Signature: "leak|" + strings.Fields(ps.Blocked[0])[0], Msg: fmt.Sprintf("after request %q goroutine(s) started for it are still alive: %v", rq.Label, ps.Blocked), Label: rq.Label, Req: small})
+				ch.kill()
+				mu.Lock()
+				*restarts++
+				mu.Unlock()
+				ch, _ = startChild()
+				ch.send(probe)
+			}
+		}
+	}
+	if ch != nil {
+		if os.Getenv("C05_DEBUG") != "" {
+			os.Stderr.WriteString(ch.stderr.String())
+		}
+		ch.kill()
+	}
+}
+
 func main() {
 	if len(os.Args) < 2 {
 		os.Exit(2)
@@ -1262,7 +1321,9 @@ func main() {
 		out := fs.String("out", "", "")
 		seed := fs.Int64("seed", 1, "")
 		nmut := fs.Int("mutations", 20, "")
+		shp := fs.Int("shards", 6, "")
 		fs.Parse(os.Args[2:])
+		shards = *shp
 		os.Exit(run(*cases, *out, *seed, *nmut))
 	}
 	_ = http.StatusOK
